@@ -259,9 +259,24 @@ class _Rename(ast.NodeTransformer):
 UNROLL_MAX = 4
 
 
-def _literal_iteration(it):
-    """[(element exprs bound to the target pattern)] for loops over a short literal tuple/list or enumerate() of one"""
-    if isinstance(it, (ast.Tuple, ast.List)) and 1 <= len(it.elts) <= UNROLL_MAX and all(_simple(e) for e in it.elts):
+def _simple_elem(e):
+    return _simple(e) or (isinstance(e, (ast.Tuple, ast.List)) and all(_simple(x) for x in e.elts))
+
+
+def _literal_iteration(it, fnode=None):
+    """[(element exprs bound to the target pattern)] for loops over a short literal tuple/list (of simple values or
+    tuples of simple values), enumerate() of one, or a local name bound exactly once to such a literal"""
+    if isinstance(it, ast.Name) and fnode is not None:
+        defs = [n for n in ast.walk(fnode) if isinstance(n, (ast.Assign, ast.AugAssign, ast.For, ast.comprehension, ast.NamedExpr, ast.With))
+                and any(isinstance(x, ast.Name) and x.id == it.id and not isinstance(getattr(x, "ctx", None), ast.Load)
+                        for t in (n.targets if isinstance(n, ast.Assign) else [getattr(n, "target", None)] if not isinstance(n, ast.With)
+                                  else [i.optional_vars for i in n.items]) if t is not None for x in ast.walk(t))]
+        mut = any(isinstance(n, ast.Attribute) and isinstance(n.value, ast.Name) and n.value.id == it.id
+                  and n.attr in ("append", "extend", "insert", "pop", "remove", "sort", "reverse", "clear") for n in ast.walk(fnode))
+        if len(defs) == 1 and isinstance(defs[0], ast.Assign) and isinstance(defs[0].value, (ast.Tuple, ast.List)) and not mut:
+            return _literal_iteration(defs[0].value)
+        return None
+    if isinstance(it, (ast.Tuple, ast.List)) and 1 <= len(it.elts) <= UNROLL_MAX and all(_simple_elem(e) for e in it.elts):
         return [e for e in it.elts]
     if isinstance(it, ast.Call) and isinstance(it.func, ast.Name) and it.func.id == "enumerate" and len(it.args) == 1 and not it.keywords:
         inner = _literal_iteration(it.args[0])
@@ -274,7 +289,7 @@ def _unroll_for(s, fnode=None):
     """statements replacing `for <target> in <short literal>: body`, or None"""
     if not isinstance(s, ast.For) or s.orelse:
         return None
-    elems = _literal_iteration(s.iter)
+    elems = _literal_iteration(s.iter, fnode)
     if elems is None:
         return None
     for x in ast.walk(ast.Module(body=s.body, type_ignores=[])):
@@ -367,6 +382,188 @@ def _scalarize_lists(stmts, fnode):
     return changed
 
 
+def _append_loops_to_comprehensions(stmts):
+    """X = []  ...  for T in IT: X.append(E)   ->   X = [E for T in IT]
+    (the loop body is the single append, no else clause, X not mentioned between the two statements nor in IT/E)"""
+    changed = False
+    i = 0
+    while i < len(stmts):
+        s = stmts[i]
+        if isinstance(s, ast.For) and not s.orelse and len(s.body) == 1 and isinstance(s.body[0], ast.Expr) \
+                and isinstance(s.body[0].value, ast.Call) and isinstance(s.body[0].value.func, ast.Attribute) \
+                and s.body[0].value.func.attr == "append" and isinstance(s.body[0].value.func.value, ast.Name) \
+                and len(s.body[0].value.args) == 1 and not s.body[0].value.keywords:
+            X = s.body[0].value.func.value.id
+            E = s.body[0].value.args[0]
+            mentions = lambda n: any(isinstance(x, ast.Name) and x.id == X for x in ast.walk(n))   # noqa: E731
+            if not mentions(E) and not mentions(s.iter):
+                j = i - 1
+                while j >= 0 and not mentions(stmts[j]):
+                    j -= 1
+                if j >= 0 and isinstance(stmts[j], ast.Assign) and len(stmts[j].targets) == 1 and isinstance(stmts[j].targets[0], ast.Name) \
+                        and stmts[j].targets[0].id == X and isinstance(stmts[j].value, ast.List) and not stmts[j].value.elts:
+                    comp = ast.ListComp(elt=E, generators=[ast.comprehension(target=s.target, iter=s.iter, ifs=[], is_async=0)])
+                    a = ast.Assign(targets=[ast.Name(id=X, ctx=ast.Store())], value=comp)
+                    stmts[i] = ast.fix_missing_locations(ast.copy_location(a, s))
+                    del stmts[j]
+                    changed = True
+                    continue
+        i += 1
+    return changed
+
+
+def _propagate_copies(stmts):
+    """x = y  (two plain names) followed, in the same straight-line block, by uses of x up to its next assignment:
+    the uses read y and the alias statement goes away (`acc = args; acc = f(acc)`  ->  `acc = f(args)`)."""
+    changed = False
+    i = 0
+    while i < len(stmts):
+        s = stmts[i]
+        if isinstance(s, ast.Assign) and len(s.targets) == 1 and isinstance(s.targets[0], ast.Name) and isinstance(s.value, ast.Name) \
+                and s.targets[0].id != s.value.id:
+            x, y = s.targets[0].id, s.value.id
+            j = i + 1
+            closed = False
+            edits = []
+            while j < len(stmts):
+                t = stmts[j]
+                if not isinstance(t, (ast.Assign, ast.Expr, ast.Return)):
+                    break
+                names_stored = {n.id for tg in (t.targets if isinstance(t, ast.Assign) else []) for n in ast.walk(tg)
+                                if isinstance(n, ast.Name) and not isinstance(getattr(n, "ctx", None), ast.Load)}
+                if any(isinstance(n, (ast.Lambda, ast.ListComp, ast.GeneratorExp, ast.DictComp, ast.SetComp)) and
+                       any(isinstance(z, ast.Name) and z.id == x for z in ast.walk(n)) for n in ast.walk(t)):
+                    break          # x captured in a nested scope: leave it alone
+                edits.append(t)
+                if x in names_stored:
+                    closed = True
+                    break
+                if y in names_stored or isinstance(t, ast.Return):
+                    break
+                j += 1
+            if closed:
+                for t in edits:
+                    val = t.value
+                    if val is not None:
+                        t.value = _Subst({x: ast.Name(id=y, ctx=ast.Load())}).visit(val)
+                        ast.fix_missing_locations(t)
+                del stmts[i]
+                changed = True
+                continue
+        i += 1
+    return changed
+
+
+def arm_stmts(fnode, test_text):
+    """Statements executed when `test_text` holds, whichever way the dispatch is written:
+         if <test>: BODY                      -> BODY
+         if not <test>: <terminates>; REST    -> REST          (guard clause)
+    None if neither form is present."""
+    from .loader import norm
+
+    def scan(stmts):
+        for i, s in enumerate(stmts):
+            if isinstance(s, ast.If):
+                t = norm(s.test)
+                if t == test_text:
+                    return list(s.body)
+                neg = s.test.operand if isinstance(s.test, ast.UnaryOp) and isinstance(s.test.op, ast.Not) else None
+                if neg is not None and norm(neg) == test_text and _terminates(s.body) and not s.orelse:
+                    return list(stmts[i + 1:])
+                if neg is not None and norm(neg) == test_text and s.orelse:
+                    return list(s.orelse)
+                for blk in (s.body, s.orelse):
+                    r = scan(blk)
+                    if r is not None:
+                        return r
+            elif isinstance(s, (ast.For, ast.While, ast.With, ast.Try)):
+                r = scan(getattr(s, "body", []))
+                if r is not None:
+                    return r
+        return None
+    return scan(fnode.body)
+
+
+class _ExprInline(ast.NodeTransformer):
+    """Expression-level beta reduction of unknown helpers that are *expression functions*:
+         def h(a, b): return EXPR                      h(x, y)      ->  EXPR[a:=x, b:=y]
+         def mk(c, f):                                  mk(int, g)   ->  lambda x: (g(x) if isinstance(x, int) else x)
+             def inner(x): return EXPR
+             return inner
+    Arguments must be simple (names, constants, attribute reads, lambdas), so nothing is duplicated or reordered."""
+
+    def __init__(self, fl, fi):
+        self.fl, self.fi = fl, fi
+        self.changed = False
+
+    def visit_FunctionDef(self, n):
+        return n          # nested functions are flattened on their own (after their loops were unrolled)
+
+    def visit_ClassDef(self, n):
+        return n
+
+    def _body(self, fn):
+        body = list(fn.body)
+        if body and isinstance(body[0], ast.Expr) and isinstance(body[0].value, ast.Constant) and isinstance(body[0].value.value, str):
+            body = body[1:]
+        return body
+
+    def visit_Call(self, n):
+        self.generic_visit(n)
+        f = n.func
+        name = f.id if isinstance(f, ast.Name) else (f.attr if isinstance(f, ast.Attribute) else None)
+        if name is None or name in KNOWN or (name.startswith("__") and name.endswith("__")) or n.keywords:
+            return n
+        if any(isinstance(a, ast.Starred) for a in n.args) or not all(_simple(a) for a in n.args):
+            return n
+        cand = None
+        if isinstance(f, ast.Name):
+            g = self.fi
+            while g is not None and cand is None:
+                cand = g.children.get(name)
+                g = g.parent
+            if cand is None:
+                b = self.fi.module.bindings.get(name)
+                cand = b[1] if b and b[0] == "def" else None
+        elif isinstance(f.value, ast.Name) and f.value.id in ("self", "cls") and self.fi.cls is not None:
+            cand = self.fi.cls.methods.get(name)
+        if cand is None or not isinstance(cand.node, ast.FunctionDef) or cand.node is self.fi.node:
+            return n
+        fn = cand.node
+        if fn.args.vararg or fn.args.kwarg or fn.args.kwonlyargs or fn.args.defaults:
+            return n
+        if fn.decorator_list and not all(isinstance(d, ast.Name) and d.id in ("staticmethod", "classmethod") for d in fn.decorator_list):
+            return n
+        params = [a.arg for a in fn.args.args]
+        args = list(n.args)
+        if isinstance(f, ast.Attribute) and params and params[0] in ("self", "cls"):
+            args = [f.value] + args
+        if len(params) != len(args):
+            return n
+        body = self._body(fn)
+        mapping = dict(zip(params, args))
+        if len(body) == 1 and isinstance(body[0], ast.Return) and body[0].value is not None \
+                and not any(isinstance(x, (ast.Yield, ast.YieldFrom, ast.Await, ast.NamedExpr)) for x in ast.walk(body[0].value)):
+            # parameters used more than once are fine: the arguments are simple
+            self.changed = True
+            self.fl.inlined_names.add(name)
+            e = _Subst(mapping).visit(clone(body[0].value))
+            return ast.copy_location(_Beta(self.fi.module).visit(e), n)
+        if len(body) == 2 and isinstance(body[0], ast.FunctionDef) and isinstance(body[1], ast.Return) \
+                and isinstance(body[1].value, ast.Name) and body[1].value.id == body[0].name:
+            inner = body[0]
+            ib = self._body(inner)
+            if len(ib) == 1 and isinstance(ib[0], ast.Return) and ib[0].value is not None and not inner.decorator_list \
+                    and not inner.args.vararg and not inner.args.kwarg and not inner.args.kwonlyargs and not inner.args.defaults:
+                shadow = {a.arg for a in inner.args.args}
+                m2 = {k: v for k, v in mapping.items() if k not in shadow}
+                lam = ast.Lambda(args=clone(inner.args), body=_Subst(m2).visit(clone(ib[0].value)))
+                self.changed = True
+                self.fl.inlined_names.add(name)
+                return ast.copy_location(lam, n)
+        return n
+
+
 class Flattener:
     def __init__(self, repo):
         self.repo = repo
@@ -403,7 +600,17 @@ class Flattener:
                 while p is not None and p.cls is None:
                     p = p.parent
                 ci = p.cls if p is not None else None
-            if ci is not None and base in ("self", "cls", ci.name):
+            if ci is None or base not in ("self", "cls", ci.name):
+                # obj.method(...) on a module-level instance `obj = C()` of a class of this module
+                b = fi.module.bindings.get(base)
+                if b and b[0] == "value" and isinstance(b[1], ast.Call) and isinstance(b[1].func, ast.Name) \
+                        and b[1].func.id in fi.module.classes and not b[1].args:
+                    oc = fi.module.classes[b[1].func.id]
+                    mi = oc.methods.get(name)
+                    if mi is not None and not mi.is_staticmethod and not mi.is_classmethod:
+                        cand = mi
+                        recv = f.value
+            if cand is None and ci is not None and base in ("self", "cls", ci.name):
                 mi = ci.methods.get(name)
                 if mi is not None:
                     cand = mi
@@ -418,9 +625,12 @@ class Flattener:
             return None
         if fn.decorator_list and not all(isinstance(d, ast.Name) and d.id in ("staticmethod", "classmethod") for d in fn.decorator_list):
             return None
-        if fn.args.vararg or fn.args.kwarg or fn.args.kwonlyargs:
+        if fn.args.kwarg or fn.args.kwonlyargs:
             return None
         if any(isinstance(a, ast.Starred) for a in call.args) or any(k.arg is None for k in call.keywords):
+            return None
+        if fn.args.vararg and (call.keywords or fn.args.defaults or len(call.args) - len(fn.args.args) > UNROLL_MAX
+                               or not all(_simple(a) for a in call.args[len(fn.args.args):])):
             return None
         if _count(fn) > MAX_STMTS or not _single_exit(fn, multi_ok=True):
             return None
@@ -466,6 +676,13 @@ class Flattener:
             else:
                 asg = ast.Assign(targets=[ast.Name(id=p, ctx=ast.Store())], value=clone(a))
                 pre.append(ast.copy_location(asg, call))
+        if fn.args.vararg:
+            # *rest bound to the tuple of the extra (simple) positional arguments
+            if fn.args.vararg.arg in assigned:
+                return None
+            mapping[fn.args.vararg.arg] = ast.Tuple(elts=[clone(a) for a in args[len(params):]], ctx=ast.Load())
+        elif len(args) > len(params):
+            return None
         body = [clone(s) for s in fn.body]
         if body and isinstance(body[0], ast.Expr) and isinstance(body[0].value, ast.Constant) and isinstance(body[0].value.value, str):
             body = body[1:]
@@ -481,7 +698,7 @@ class Flattener:
             out += body
             if not _terminates(body):
                 out.append(ast.copy_location(ast.Return(value=ast.Constant(value=None)), call))
-            out = self._finish(fi, fn, out, target if mode == "assign" else None)
+            out = self._finish(fi, fn, out, target if mode == "assign" else None, npre=len(pre))
             for s in out:
                 ast.fix_missing_locations(s)
             self.n_inlined += 1
@@ -501,7 +718,7 @@ class Flattener:
                     return [ast.copy_location(ast.Expr(value=val), r)]
                 return [ast.copy_location(ast.Pass(), r)]
             out += _map_tail_returns(tb, repl)
-            out = self._finish(fi, fn, out, target if mode == "assign" else None)
+            out = self._finish(fi, fn, out, target if mode == "assign" else None, npre=len(pre))
             for s in out:
                 ast.fix_missing_locations(s)
             self.n_inlined += 1
@@ -524,7 +741,7 @@ class Flattener:
         elif mode == "expr" and ret is not None and any(isinstance(x, ast.Call) for x in ast.walk(ret)):
             e = ast.Expr(value=ret)
             out.append(ast.copy_location(e, call))
-        out = self._finish(fi, fn, out, target if mode == "assign" else None)
+        out = self._finish(fi, fn, out, target if mode == "assign" else None, npre=len(pre))
         for s in out:
             ast.fix_missing_locations(s)
         self.n_inlined += 1
@@ -581,7 +798,7 @@ class Flattener:
         # helper-owned statements are finished (reduced / renamed) on their own; the with-body is the caller's code
         own = pre + before + yv + (fin or []) + after
         keep = [var] if var is not None else None
-        res = self._finish(fi, fn, own, keep)
+        res = self._finish(fi, fn, own, keep, npre=len(pre))
         n1 = len(pre) + len(before) + len(yv)
         n2 = n1 + len(fin or [])
         if fin is None:
@@ -710,7 +927,7 @@ class Flattener:
         self.log.append("%s: desugared `with %s(...)` at line %s" % (fi.fq, ci.name, getattr(w, "lineno", "?")))
         return out
 
-    def _finish(self, fi, fn, out, target):
+    def _finish(self, fi, fn, out, target, npre=0):
         """beta/operator reduction, constant getattr/setattr canonicalisation, and renaming of helper locals that collide
         with names already used in the caller (a helper inlined twice must not share its locals)."""
         out = _fold_const_ifs([_AttrCanon().visit(_Beta(fi.module).visit(s)) for s in out])
@@ -731,7 +948,16 @@ class Flattener:
                     k += 1
                 ren[n] = "%s__%d" % (n, k)
         if ren:
-            out = [_Rename(ren).visit(s) for s in out]
+            # the first `npre` statements bind parameters to ARGUMENT expressions: those belong to the caller (only the
+            # parameter name on the left is the helper's)
+            res_ = []
+            for k_, s_ in enumerate(out):
+                if k_ < npre and isinstance(s_, ast.Assign):
+                    s_.targets = [_Rename(ren).visit(t) for t in s_.targets]
+                    res_.append(s_)
+                else:
+                    res_.append(_Rename(ren).visit(s_))
+            out = res_
         names |= {ren.get(n, n) for n in local}
         return out
 
@@ -822,6 +1048,54 @@ class Flattener:
         ast.fix_missing_locations(s)
         return pre
 
+    def expand_generator_loop(self, fi, s):
+        """for X in gen(args): BODY   with an unknown generator helper   def gen(p): for T in IT: yield E
+           ->  for T in IT[p:=args]: X = E; BODY"""
+        if s.orelse or not isinstance(s.iter, ast.Call) or not isinstance(s.iter.func, ast.Name) or s.iter.keywords:
+            return None
+        name = s.iter.func.id
+        if name in KNOWN:
+            return None
+        b = fi.module.bindings.get(name)
+        cand = b[1] if b and b[0] == "def" else fi.children.get(name)
+        if cand is None or not isinstance(getattr(cand, "node", None), ast.FunctionDef):
+            return None
+        fn = cand.node
+        if fn.decorator_list or fn.args.vararg or fn.args.kwarg or fn.args.kwonlyargs or fn.args.defaults \
+                or len(fn.args.args) != len(s.iter.args) or not all(_simple(a) for a in s.iter.args):
+            return None
+        body = list(fn.body)
+        if body and isinstance(body[0], ast.Expr) and isinstance(body[0].value, ast.Constant) and isinstance(body[0].value.value, str):
+            body = body[1:]
+        if len(body) != 1 or not isinstance(body[0], ast.For) or body[0].orelse:
+            return None
+        inner = body[0]
+        if len(inner.body) != 1 or not (isinstance(inner.body[0], ast.Expr) and isinstance(inner.body[0].value, ast.Yield)
+                                        and inner.body[0].value.value is not None):
+            return None
+        mapping = dict(zip([a.arg for a in fn.args.args], s.iter.args))
+        names = set(_assigned_names(fi.node)) | {a.arg for a in fi.node.args.args}
+        tnames = {x.id for x in ast.walk(inner.target) if isinstance(x, ast.Name)}
+        ren = {}
+        for n in sorted(tnames):
+            if n in names:
+                k = 2
+                while "%s__%d" % (n, k) in names:
+                    k += 1
+                ren[n] = "%s__%d" % (n, k)
+        target = _Rename(ren).visit(clone(inner.target)) if ren else clone(inner.target)
+        it = _Subst(mapping).visit(clone(inner.iter))
+        elt = _Subst(mapping).visit(clone(inner.body[0].value.value))
+        if ren:
+            elt = _Rename(ren).visit(elt)
+        bind = ast.Assign(targets=[clone(s.target)], value=elt)
+        new = ast.For(target=target, iter=it, body=[ast.copy_location(bind, s)] + list(s.body), orelse=[])
+        ast.fix_missing_locations(ast.copy_location(new, s))
+        self.n_inlined += 1
+        self.inlined_names.add(name)
+        self.log.append("%s: inlined generator %s at line %s" % (fi.fq, name, getattr(s, "lineno", "?")))
+        return [new]
+
     def flat_block(self, fi, stmts):
         out = []
         changed = False
@@ -854,6 +1128,8 @@ class Flattener:
                         out.extend(pre)
                         changed = True
             if rep is None and isinstance(s, ast.For):
+                rep = self.expand_generator_loop(fi, s)
+            if rep is None and isinstance(s, ast.For):
                 rep = _unroll_for(s, fi.node)
                 if rep is not None:
                     self.log.append("%s: unrolled loop at line %s" % (fi.fq, getattr(s, "lineno", "?")))
@@ -876,6 +1152,10 @@ class Flattener:
             out.append(s)
         while _scalarize_lists(out, fi.node):
             changed = True
+        if _append_loops_to_comprehensions(out):
+            changed = True
+        if _propagate_copies(out):
+            changed = True
         return out, changed
 
     def flatten_function(self, fi):
@@ -884,7 +1164,14 @@ class Flattener:
         any_change = False
         for _ in range(MAX_ROUNDS):
             nb, ch = self.flat_block(fi, fi.node.body)
-            if not ch:
+            ei = _ExprInline(self, fi)
+            nb = [ei.visit(s) for s in nb]
+            if ei.changed:
+                nb = [_Beta(fi.module).visit(s) for s in nb]
+                for s in nb:
+                    ast.fix_missing_locations(s)
+                self.log.append("%s: expression-level helper inlining" % fi.fq)
+            if not ch and not ei.changed:
                 break
             fi.node.body = nb
             any_change = True
@@ -911,6 +1198,31 @@ def flatten_repo(repo):
                     import traceback
                     fl.log.append("flatten failed for %s: %r %s" % (fi.fq, e, traceback.format_exc().splitlines()[-3:]))
                     continue
+    # module-level statements: expression functions only (BL = _byte_length(modulus))
+    class _ModFi:
+        def __init__(self, m):
+            self.module, self.parent, self.cls, self.children, self.node, self.fq = m, None, None, {}, m.tree, m.name + ":<module>"
+    for m in repo.modules.values():
+        if m.name.startswith("pysnark.zkinterface.") and m.name not in ("pysnark.zkinterface.backend",):
+            continue
+        try:
+            ei = _ExprInline(fl, _ModFi(m))
+            for i, s in enumerate(m.tree.body):
+                if not isinstance(s, (ast.FunctionDef, ast.ClassDef, ast.Import, ast.ImportFrom)):
+                    m.tree.body[i] = ei.visit(s)
+            if ei.changed:
+                for n in ast.walk(m.tree):
+                    for c in ast.iter_child_nodes(n):
+                        c._parent = n
+                ast.fix_missing_locations(m.tree)
+                for k, b in list(m.bindings.items()):
+                    if b[0] == "value":
+                        for s in m.tree.body:
+                            if isinstance(s, ast.Assign) and any(isinstance(t, ast.Name) and t.id == k for t in s.targets):
+                                m.bindings[k] = ("value", s.value)
+                fl.log.append("%s: module-level expression helpers inlined" % m.name)
+        except Exception as e:
+            fl.log.append("module-level inlining failed for %s: %r" % (m.name, e))
     _drop_dead_helpers(repo, fl)
     repo.flatten_log = fl.log
     return fl
@@ -973,6 +1285,19 @@ def resolve_locals(fnode, expr, max_depth=4, copies_only=False):
                     if isinstance(x, ast.Name):
                         counts[x.id] = counts.get(x.id, 0) + 2
     single = {k: v for k, v in defs.items() if counts.get(k) == 1 and k not in params}
+    # a name whose object is mutated after the assignment (x.append(..), x[i] = .., x.update(..)) does not stand for its
+    # defining expression
+    mutated = set()
+    for n in ast.walk(fnode):
+        if isinstance(n, ast.Call) and isinstance(n.func, ast.Attribute) and isinstance(n.func.value, ast.Name) \
+                and n.func.attr in ("append", "extend", "insert", "pop", "remove", "clear", "sort", "reverse", "update", "add", "setdefault"):
+            mutated.add(n.func.value.id)
+        elif isinstance(n, (ast.Assign, ast.AugAssign, ast.Delete)):
+            for t in (n.targets if not isinstance(n, ast.AugAssign) else [n.target]):
+                for x in ast.walk(t):
+                    if isinstance(x, ast.Subscript) and isinstance(x.value, ast.Name):
+                        mutated.add(x.value.id)
+    single = {k: v for k, v in single.items() if k not in mutated}
     if copies_only:
         # copy propagation only (t = u): always sound for single-assignment locals, whatever state changes in between
         single = {k: v for k, v in single.items() if isinstance(v, ast.Name)}
@@ -994,4 +1319,35 @@ def resolutions(fnode, expr, max_depth=4):
         t = norm(resolve_locals(fnode, expr, max_depth=d))
         if t not in out:
             out.append(t)
+    return out
+
+
+def helper_closure(repo, fi):
+    """AST nodes of `fi` and of every helper *unknown to the rule tables* that it references by name, transitively
+    (helpers that could not be inlined - e.g. called inside a comprehension - still belong to the function's code)."""
+    out, seen, todo = [], set(), [fi]
+    while todo:
+        f = todo.pop()
+        if id(f.node) in seen:
+            continue
+        seen.add(id(f.node))
+        out.append(f)
+        for n in ast.walk(f.node):
+            if isinstance(n, ast.Call):
+                name = n.func.id if isinstance(n.func, ast.Name) else (n.func.attr if isinstance(n.func, ast.Attribute) and isinstance(
+                    n.func.value, ast.Name) and n.func.value.id in ("self", "cls") else None)
+                if name is None or name in KNOWN:
+                    continue
+                cand = None
+                g = f
+                while g is not None and cand is None:
+                    cand = g.children.get(name)
+                    g = g.parent
+                if cand is None:
+                    b = f.module.bindings.get(name)
+                    cand = b[1] if b and b[0] == "def" else None
+                if cand is None and f.cls is not None:
+                    cand = f.cls.methods.get(name)
+                if cand is not None and hasattr(cand, "node"):
+                    todo.append(cand)
     return out
